@@ -427,8 +427,12 @@ Add(st, nm, p, proto) ==
   IF v.out # "ok" THEN Err(st, v.out)
   ELSE IF v.v # P.dur /\ ~P.rs THEN Err(st, "TE")
   ELSE
-  LET f == PF[st.dev][st.ch[i].cid][p]
-      r == AddCore(st, i, [dur |-> v.v, ph |-> P.ph, pps |-> P.pps, dd |-> P.dd,
+  LET f == PF[st.dev][st.ch[i].cid][p] IN
+  \* the pulse re-created with the adjusted duration must itself be constructible (f.ok is
+  \* observed on the working tree when the configuration is instantiated; always true there)
+  IF ~f.ok THEN Err(st, "VE")
+  ELSE
+  LET r == AddCore(st, i, [dur |-> v.v, ph |-> P.ph, pps |-> P.pps, dd |-> P.dd,
                            fs |-> f.fs, fe |-> f.fe, w |-> f.w], proto, NoDrift)
   IN IF r.out = "ok" THEN Ok([r.st EXCEPT !.empty = FALSE, !.lg = Append(@, "add")]) ELSE r
 
